@@ -19,9 +19,9 @@ fn spec0(tier: Tier) -> RunSpec {
     super::base_spec(
         16,
         "one section per parsing entry point (JSON::parse_as_properties, JSONProperty::parse, RawUnprocessedJSONArray::split_into_vector_of_strings, the 15 typed parse_as_list_* readers, JSONArrayOfObjects::from_json, Base64::decode, \
-FormMultipartData::parse / extract_boundary, Request::parse, Response::parse, Header::parse, ContentDisposition::parse, Range::parse_range_in_content_range, Range::_parse_content_range_header_value, \
+FormMultipartData::parse / extract_boundary, Request::parse, Response::parse, Header::parse, ContentDisposition::parse, Range::parse_range_in_content_range, Range::parse_content_range, Range::_parse_content_range_header_value, Range::_parse_raw_content_range_header_value, \
 Range::parse_multipart_body, read_config_file, UrlPath::{extract_parts_from_pattern, is_matching, extract, build}). Inputs: valid documents of the entry point's format (repository fixtures and harness-made ones) under 0..4 structure-aware byte mutations \
-(truncate at any position, delete, insert / replace with delimiters, CR, LF, NUL, non-ASCII and non-UTF-8 bytes, bit flips, dropped/duplicated line breaks), raw random bytes, nesting to depth 10,000, lines of 64 KiB, thousands of lines / header lines / parts. \
+(truncate at any position, delete, insert / replace with delimiters, CR, LF, NUL, non-ASCII and non-UTF-8 bytes, bit flips, letter case changes, dropped/duplicated line breaks), raw random bytes, nesting to depth 10,000, lines of 64 KiB, thousands of lines / header lines / parts. \
 Oracle: the call returns Ok or Err - no panic (hook + catch_unwind), no abort / stack overflow (the supervisor attributes the death of a worker to the in-flight case), no hang (watchdog -> inconclusive). \
 Non-trivial = the input is a mutated valid document or a structural stress input (it reaches past the first validity check of its format) rather than raw noise; distinct by (entry point, input).",
         &["inputs to entry points that take &str / String are made valid UTF-8 by lossy conversion (a String cannot hold anything else)", "code under test runs on a 2 MiB stack, the size the server gives its workers"],
@@ -40,12 +40,22 @@ pub enum Input {
 #[derive(Clone, Debug, Serialize, Deserialize)]
 pub struct Case { pub entry: String, pub input: Input, pub aux: String }
 
-pub const ENTRIES: [&str; 36] = [
+pub const ENTRIES: [&str; 38] = [
     "json-object", "json-property", "json-array-split", "json-array-objects",
     "list-i8", "list-i16", "list-i32", "list-i64", "list-i128", "list-u8", "list-u16", "list-u32", "list-u64", "list-u128", "list-f32", "list-f64", "list-string", "list-bool", "list-null",
     "base64-decode", "multipart-parse", "multipart-extract-boundary", "request-parse", "response-parse", "header-parse", "content-disposition-parse",
     "range-spec", "content-range-value", "byteranges-body", "byteranges-body-with-boundary", "config-file", "urlpath-pattern", "urlpath-is-matching", "urlpath-extract", "urlpath-build", "request-line",
+    "range-header-value", "content-range-value-raw",
 ];
+
+/// Entry point named by the first byte of a fuzz input: the first 36 keep the numbering the saved campaigns were made with, later ones take the top of the byte range.
+pub fn entry_for_byte(b: u8) -> &'static str {
+    let extra = ENTRIES.len() - 36;
+    if (b as usize) >= 256 - extra { ENTRIES[36 + (b as usize - (256 - extra))] } else { ENTRIES[b as usize % 36] }
+}
+
+/// An existing file for the entry points that take a file path next to the text to parse (the tree's own Cargo.toml: nothing is written).
+fn sample_file() -> String { format!("{}/Cargo.toml", option_env!("RWS_VERIF_SRC_USED").unwrap_or("/repo")) }
 
 fn fixture(rel: &str) -> Vec<u8> {
     let base = option_env!("RWS_VERIF_SRC_USED").unwrap_or("/repo");
@@ -79,7 +89,8 @@ pub fn seeds(entry: &str) -> Vec<Vec<u8>> {
         "header-parse" => s(&["Content-Type: text/html", "Host: localhost:80", "X: ", "Name:value:with:colons", "A: b\r\n"]),
         "content-disposition-parse" => s(&["form-data; name=\"a\"; filename=\"b.txt\"", "attachment; filename=\"x\"", "inline", "form-data; name=\"field\"", "form-data"]),
         "range-spec" => s(&["0-5", "5-", "-5", "0-0", "3 - 4", "10-20"]),
-        "content-range-value" => s(&["bytes 0-5/10", "bytes 0-0/0", "bytes 9223372036854775806-9223372036854775807/9223372036854775807", "BYTES 1-2/3"]),
+        "range-header-value" => s(&["bytes=0-5", "bytes=5-", "bytes=-5", "bytes=0-0, 2-3", "bytes=0-1,4-5,8-9", "bytes=3 - 4", "items=0-5", "bytes=9-20"]),
+        "content-range-value" | "content-range-value-raw" => s(&["bytes 0-5/10", "bytes 0-0/0", "bytes 9223372036854775806-9223372036854775807/9223372036854775807", "BYTES 1-2/3"]),
         "byteranges-body" | "byteranges-body-legacy" | "byteranges-body-with-boundary" => vec![
             b"--\r\nContent-Type: text/plain\r\nContent-Range: bytes 0-1/10\r\n\r\nab\r\n--\r\nContent-Type: text/plain\r\nContent-Range: bytes 4-5/10\r\n\r\nef\r\n----".to_vec(),
             b"\r\nContent-Type: text/plain\r\nContent-Range: bytes 0-1/10\r\n\r\nab\r\n".to_vec(),b"--String_separator\r\nContent-Type:  text/plain\r\nContent-Range:  bytes 0-1/10\r\n\r\nab\r\n--String_separator\r\nContent-Type:  text/plain\r\nContent-Range:  bytes 4-5/10\r\n\r\nef\r\n--String_separator".to_vec()],
@@ -102,7 +113,11 @@ pub fn aux_for(entry: &str) -> Vec<&'static str> {
 
 pub fn render(c: &Case) -> Vec<u8> {
     match &c.input {
-        Input::Doc { seed, muts } => { let ss = seeds(&c.entry); let mut v = ss[crate::fw::util::pick_idx(*seed, ss.len())].clone(); apply_muts(&mut v, muts, 10000); v }
+        Input::Doc { seed, muts } => { let ss = seeds(&c.entry); let mut v = ss[crate::fw::util::pick_idx(*seed, ss.len())].clone();
+            // padding stays at "a little more than 10000 bytes" here (the request generator's far-beyond-the-buffer sizes are a property of connections, not of parsers;
+            // several of these parsers are quadratic in the input length and the watchdog would call 600 KB of Base64 text a hang)
+            let muts: Vec<Mut> = muts.iter().map(|m| match m { Mut::Oversize(d) => Mut::Oversize(*d % 49152), other => other.clone() }).collect();
+            apply_muts(&mut v, &muts, 10000); v }
         Input::Raw(b) => b.0.clone(),
         Input::Nest { open, close, inner, depth } => { let mut s = String::with_capacity((open.len() + close.len()) * *depth as usize + inner.len()); for _ in 0..*depth { s.push_str(open); } s.push_str(inner); for _ in 0..*depth { s.push_str(close); } s.into_bytes() }
         Input::Lines { head, line, count, tail } => { let mut s = String::with_capacity(head.len() + line.len() * *count as usize + tail.len()); s.push_str(head); for _ in 0..*count { s.push_str(line); } s.push_str(tail); s.into_bytes() }
@@ -139,6 +154,10 @@ pub fn call(entry: &str, input: &[u8], aux: &str) {
         "content-disposition-parse" => { let _ = crate::header::content_disposition::ContentDisposition::parse(&text()); }
         "range-spec" => { let _ = crate::range::Range::parse_range_in_content_range(aux.parse::<u64>().unwrap_or(10), &text()); }
         "content-range-value" => { let _ = crate::range::Range::_parse_content_range_header_value(text()); }
+        "content-range-value-raw" => { let _ = crate::range::Range::_parse_raw_content_range_header_value(&text()); }
+        // the reader of a Range header value: (file path, file length, value); as at its call site the file exists and the length is the file's own
+        // (a length the file does not have is outside what any caller passes: a first version of this entry varied it and raised a false alarm inside file-ext)
+        "range-header-value" => { let f = sample_file(); let len = std::fs::metadata(&f).map(|m| m.len()).unwrap_or(0); let _ = crate::range::Range::parse_content_range(&f, len, &text()); }
         "byteranges-body-with-boundary" => { let mut cur = std::io::Cursor::new(input); let _ = crate::range::Range::parse_multipart_body_with_boundary(&mut cur, vec![], aux.to_string(), input.len() as i32, 0, false); }
         "byteranges-body" => { let mut cur = std::io::Cursor::new(input); let _ = crate::range::Range::parse_multipart_body(&mut cur, vec![]); }
         "byteranges-body-legacy" => { let mut cur = std::io::Cursor::new(input); let _ = crate::range::Range::_parse_multipart_body(&mut cur, vec![]); }
@@ -221,7 +240,7 @@ pub fn run(ctx: &Ctx) {
     // corpus/c20/*.pack: inputs of the coverage-guided campaigns in the fuzz target's format (byte 0 entry point, byte 1 auxiliary argument, rest input)
     super::c04::replay_corpus_with(ctx, "c20-packs", |ctx, data| {
         if data.len() < 2 { return (Verdict::pass(false), Value::Null); }
-        let entry = ENTRIES[data[0] as usize % ENTRIES.len()];
+        let entry = entry_for_byte(data[0]);
         let auxs = aux_for(entry);
         let c = Case { entry: entry.to_string(), input: Input::Raw(Bytes(data[2..].to_vec())), aux: auxs[data[1] as usize % auxs.len()].to_string() };
         (eval(ctx, &c), serde_json::to_value(&c).unwrap_or(Value::Null))
